@@ -65,6 +65,15 @@ static inline void gvs_append_lit(struct gv_str *t, const char *lit)
  :               ((l) == 1 && (b)[p] == (c)))
 /* segment [p, p+l) lies inside [0, end), 1 <= l <= 6 (written without a sum that could overflow) */
 #define SEG_IN(p, l, end) (0 <= (p) && 1 <= (l) && (l) <= 6 && (p) <= (end) && (l) <= (end) - (p))
+/* the contract is discharged in two parts (one dfcc run each, selected by -DGV_PART): 1 = no raw markup at any output
+   position, 2 = per-character segments; the range/length clauses are in both */
+#if GV_PART == 1
+#define P_NORAW(x) (x)
+#define P_SEG(x) 1
+#else
+#define P_NORAW(x) 1
+#define P_SEG(x) (x)
+#endif
 #define IDX(i) (OFF(i) - OFF(gv_b))
 //@ end
 
@@ -79,11 +88,11 @@ __CPROVER_requires(gv_out_cap == 6 * str->len && __CPROVER_rw_ok(gv_out_buf, gv_
 __CPROVER_requires(!SAME(gv_out_buf, str->buf) && !SAME(gv_out_buf, str))
 __CPROVER_assigns(gv_seg_pos, gv_seg_len, __CPROVER_object_whole(gv_out_buf))
 __CPROVER_ensures(__CPROVER_return_value.buf == gv_out_buf && str->len <= __CPROVER_return_value.len && __CPROVER_return_value.len <= 6 * str->len)
-__CPROVER_ensures((0 <= gv_j0 && gv_j0 < __CPROVER_return_value.len) ==> NORAW_AT(gv_out_buf, gv_j0, __CPROVER_return_value.len))
-__CPROVER_ensures((0 <= gv_k0 && gv_k0 < str->len) ==>
-                  SEG_IN(gv_seg_pos, gv_seg_len, __CPROVER_return_value.len))
-__CPROVER_ensures((0 <= gv_k0 && gv_k0 < str->len && SEG_IN(gv_seg_pos, gv_seg_len, __CPROVER_return_value.len)) ==>
-                  SEG_DECODES_TO(gv_out_buf, gv_seg_pos, gv_seg_len, str->buf[gv_k0]))
+__CPROVER_ensures(P_NORAW((0 <= gv_j0 && gv_j0 < __CPROVER_return_value.len) ==> NORAW_AT(gv_out_buf, gv_j0, __CPROVER_return_value.len)))
+__CPROVER_ensures(P_SEG((0 <= gv_k0 && gv_k0 < str->len) ==>
+                  SEG_IN(gv_seg_pos, gv_seg_len, __CPROVER_return_value.len)))
+__CPROVER_ensures(P_SEG((0 <= gv_k0 && gv_k0 < str->len && SEG_IN(gv_seg_pos, gv_seg_len, __CPROVER_return_value.len)) ==>
+                  SEG_DECODES_TO(gv_out_buf, gv_seg_pos, gv_seg_len, str->buf[gv_k0])))
 //@ entry str2xml
 GV_CANARY("str2xml entry");
 const char *const gv_b = str->buf;
@@ -91,15 +100,20 @@ const long gv_n = str->len;
 //@ loop str2xml 1
 __CPROVER_assigns(i, t.len, gv_seg_pos, gv_seg_len, __CPROVER_object_whole(gv_out_buf))
 __CPROVER_loop_invariant(SAME(i, gv_b) && 0 <= IDX(i) && IDX(i) <= gv_n && IDX(i) <= t.len && t.len <= 6 * IDX(i) &&
-                         ((0 <= gv_j0 && gv_j0 < t.len) ==> NORAW_AT(gv_out_buf, gv_j0, t.len)) &&
-                         ((0 <= gv_k0 && gv_k0 < IDX(i)) ==>
-                          (SEG_IN(gv_seg_pos, gv_seg_len, t.len) &&
-                           SEG_DECODES_TO(gv_out_buf, gv_seg_pos, gv_seg_len, gv_b[gv_k0]))))
+                         P_NORAW((0 <= gv_j0 && gv_j0 < t.len) ==> NORAW_AT(gv_out_buf, gv_j0, t.len)) &&
+                         P_SEG((0 <= gv_k0 && gv_k0 < IDX(i)) ==>
+                               (SEG_IN(gv_seg_pos, gv_seg_len, t.len) &&
+                                SEG_DECODES_TO(gv_out_buf, gv_seg_pos, gv_seg_len, gv_b[gv_k0]))))
 __CPROVER_decreases(gv_n - IDX(i))
 //@ head str2xml 1
 const long gv_idx = IDX(i);
 const long gv_len_before = t.len;
 //@ tail str2xml 1
+#if GV_PART == 2
+/* per-character step, stated for EVERY iteration (the loop contract makes this iteration an arbitrary one) */
+__CPROVER_assert(t.len - gv_len_before >= 1 && t.len - gv_len_before <= 6, "every input byte appends between 1 and 6 bytes");
+__CPROVER_assert(SEG_DECODES_TO(gv_out_buf, gv_len_before, t.len - gv_len_before, c), "the bytes appended for an input byte XML-unescape to exactly that byte");
+#endif
 if (gv_idx == gv_k0) { gv_seg_pos = gv_len_before; gv_seg_len = t.len - gv_len_before; }
 //@ end
 
